@@ -52,6 +52,14 @@ def canon(kind, out, real):
         drop = ("invalid-backend-ref",) if real else ()
         return {"confs": [[_ups(c.get("http")), _ups(c.get("stream"))] for c in (out.get("confs") or [])],
                 "views": [[_table(v.get("http"), drop), _table(v.get("stream"))] for v in (out.get("views") or [])]}
+    if kind == "pipeE":
+        return {"conf": _ups(out.get("conf")), "upstreams": _conf(out.get("upstreams"))}
+    if kind == "faults":
+        drop = ("invalid-backend-ref",) if real else ()
+        return {"confs": [[_ups(c.get("http")), _ups(c.get("stream"))] for c in (out.get("confs") or [])],
+                "views": [[_table(v.get("http"), drop), _table(v.get("stream"))] for v in (out.get("views") or [])],
+                "errs": [bool(e) for e in (out.get("errs") or [])],
+                "lastErrs": [bool(e) for e in (out.get("lastErrs") or [])]}
     return out
 
 
@@ -63,7 +71,10 @@ def _obligations(ctx):
         rc, _, err = vcheck.sh([vcheck.TRANSLATOR_BIN, "-repo", vcheck.REPO, "-out", vcheck.GENERATED])
         if rc not in (0, 3):
             raise SystemExit(f"translator crashed (framework error):\n{err}")
-        return ctx.obligations("NGF.Props.C13")
+        ok = True
+        for mod in ("NGF.Props.C13Handler", "NGF.Props.C13"):
+            ok = ctx.obligations(mod) and ok
+        return ok
 
 
 class Stats:
@@ -78,6 +89,7 @@ class Stats:
         self.samples = []
         self.per_clause = collections.Counter()
         self.variant = collections.Counter()
+        self.outside = 0
 
 
 def process(ctx, st, lines):
@@ -118,6 +130,15 @@ def process(ctx, st, lines):
         st.kinds[k] += 1
         impl = canon(k, d["out"], True)
         matched = None
+        if k == "pipeE" and m is not None and not m.get("inFragment"):
+            # the cluster is outside the fragment of Model/Pipeline.lean (reported, not compared)
+            st.h["pipeE_outside_fragment:" + str(m.get("why"))[:60]] += 1
+            st.outside += 1
+            continue
+        if k == "pipeE" and (d["out"].get("panic") or d["out"].get("noConf")):
+            st.h["pipeE_no_output"] += 1
+            st.outside += 1
+            continue
         if m is not None and canon(k, m, False) == impl:
             matched = "as-is"
         elif m is not None:
@@ -160,6 +181,40 @@ def process(ctx, st, lines):
             h["seq:" + ("equal" if o.get("eq") else "differ") + ("/same-length" if len(i["new"]) == len(i["old"]) else "/other-length")] += 1
             if i["new"] and len(i["new"]) == len(i["old"]):
                 st.nontrivial.add(key)
+        elif k == "pipeE":
+            conf = o.get("conf") or []
+            h["pipeE_upstreams:%d" % min(len(conf), 6)] += 1
+            h["pipeE_upstreams_with_endpoints:%d" % min(sum(1 for u in conf if u["eps"]), 4)] += 1
+            h["pipeE_slices:%d" % min(len(i.get("slices") or []) // 5 * 5, 30)] += 1
+            tg = set(m.get("targets") or [])
+            h["pipeE_proxied_names:%d" % min(len(tg - {"invalid-backend-ref"}), 6)] += 1
+            if tg != set(o.get("proxied") or []):
+                st.diffs += 1
+                ctx.broken("the upstream names the REAL http.conf proxies to (proxy_pass / split_clients) are not those of "
+                           "confTargets (gen (resolve c))",
+                           replay={"kind": k, "objs": i.get("objs"), "model": sorted(tg), "real": sorted(o.get("proxied") or [])})
+            if any(u["eps"] for u in conf) and len(conf) >= 2:
+                st.nontrivial.add(key)
+        elif k == "faults":
+            mode = "plus" if i["plus"] else "oss"
+            errs, fired = o.get("errs") or [], o.get("fired") or []
+            retried = False
+            for n, op in enumerate(i["ops"]):
+                f = op.get("faults") or {}
+                kind = ("replace" if f.get("replace") else "reload" if f.get("reload") else "get" if f.get("get") else
+                        "api" if (f.get("http") or f.get("stream")) else "none")
+                hit = n < len(fired) and fired[n]
+                h["faults_%s_op:%s/fault=%s/%s" % (mode, op["op"], kind, "fired" if hit else "not-fired")] += 1
+                h["faults_note:" + (op.get("note") or "first")] += 1
+                if n < len(errs):
+                    h["faults_%s_batch:%s" % (mode, "error-recorded" if errs[n] else "quiet")] += 1
+                # the retry pattern: a batch with a recorded error followed by a quiet batch
+                if n > 0 and n < len(errs) and errs[n - 1] and not errs[n]:
+                    retried = True
+                    same = op["slices"] == i["ops"][n - 1]["slices"]
+                    h["faults_%s_retry_after_error:%s" % (mode, "same-slices" if same else "changed-slices")] += 1
+            if retried:
+                st.nontrivial.add(key)
         elif k in ("plus", "e2e"):
             for op, c in zip(i["ops"], o.get("calls") or []):
                 h[k + "_op:" + op["op"] + ("/api-update" if c else "/no-update")] += 1
@@ -181,17 +236,19 @@ def run(ctx):
     n_corpus = st.n
     # (mode, cases per round, seed offset); thorough = 10 rounds with different seeds (memory stays bounded)
     plan = (("resolve", 1500, 0), ("pipe", 400, 104729), ("plus", 250, 1299709), ("e2e", 150, 15485863),
-            ("seq", 400, 32452843))
+            ("seq", 400, 32452843), ("faults", 300, 49979687), ("pipeE", 150, 67867967))
     rounds, maxops = (1, 8) if ctx.tier == "quick" else (30, 14)
     if ctx.tier == "thorough":
         plan = (("resolve", 10000, 0), ("pipe", 2000, 104729), ("plus", 600, 1299709), ("e2e", 400, 15485863),
-                ("seq", 2000, 32452843))
+                ("seq", 2000, 32452843), ("faults", 800, 49979687), ("pipeE", 300, 67867967))
     for rnd in range(rounds):
         for mode, n, off in plan:
             process(ctx, st, ctx.harness(["-mode", mode, "-seed", ctx.seed + off + 7919 * rnd, "-n", n,
                                           "-maxops", maxops]) or [])
         if len(ctx.brokens) > 6:
             break   # a broken tree: do not run for minutes
+    if st.kinds["pipeE"] and st.outside * 2 > st.kinds["pipeE"]:
+        ctx.broken(f"pipeE: {st.outside} of {st.kinds['pipeE']} generated clusters are outside the fragment or gave no configuration")
     if not getattr(ctx, "harness_ok", False):
         ctx.broken("harness does not build against the current tree", detail="\n".join(ctx.build_errors))
 
@@ -201,13 +258,15 @@ def run(ctx):
         "rule": "distinct generated inputs; non-trivial = resolve cases with >=2 slices of the Service and >=1 endpoint "
                 "returned, pipeline cases with >=1 resolved endpoint, Plus sequences (synthetic configurations and "
                 "end-to-end EndpointSlice histories) with >=1 endpoints-only step that changed a server set through the API, "
-                "serversEqual pairs of equal non-zero length",
+                "serversEqual pairs of equal non-zero length, fault sequences in which a batch with a recorded error is followed by a "
+                "quiet batch (the retry), pipeline clusters with >=2 upstreams of which >=1 has endpoints",
         "samples": st.samples,
         "traces_validated_against_impl": st.n - st.diffs,
         "correspondence_diffs": st.diffs,
         "correspondence_diffs_by_kind": dict(st.dkinds),
         "model_variant_matched": dict(st.variant),
         "cases_by_kind": dict(st.kinds),
+        "pipeE_cases_not_compared": st.outside,
         "corpus_cases": n_corpus,
         "judge_verdicts": dict(st.vhist),
         "generator_histogram": dict(sorted(st.h.items())),
@@ -221,6 +280,12 @@ def run(ctx):
         "EndpointPort numbers are 1..65535 and names are non-nil (API server validation/defaulting); other inputs are "
         "compared with the model but not judged",
         "a ChangeProcessor that reports EndpointsOnlyChange only when nothing but EndpointSlices changed (property C01)",
+        "faults: a failing ReplaceFiles / Reload / GetUpstreams / UpdateHTTPServers / UpdateStreamServers call changes nothing in "
+        "NGINX; a failed reload leaves NGINX running what it held; NGINX Plus state files survive reloads (also while their "
+        "upstream is absent from the configuration) and are shared by http and stream upstreams of one name",
+        "'the handler reports the batch as successful' = it logged no \"Failed to update NGINX configuration\" error during that batch",
+        "pipeE: clusters inside the fragment of Model/Pipeline.lean (decoded by PipelineRefsTie.toScenarioR), NGINX OSS, no NginxProxy (IPFamily Dual)",
     ], trusted=[
+        "harness/c13/pipee.go: upstream blocks / proxy_pass / split_clients values read from the real http.conf by line regexes",
         "harness/c13/nginx.go: stand-in for NGINX (Plus): parses upstream blocks of the generated files, state-file and API semantics",
     ])
